@@ -1133,6 +1133,29 @@ def _run_constructors(ctx, rng):
                 continue
             ctx.check("curve.malformed_refused", {"kind": kind, "args": list(args)}, key="curve.malformed." + kind)
             ctx.count("malformed", kind)
+    # a generator whose true order is 2n (n odd prime): n*G is the 2-torsion point (x, 0), which is NOT infinity,
+    # so "n is not the group order" must refuse it (found by c02's brute-force group tables)
+    tried = 0
+    for p, a, b in all_toy_params(47 if ctx.tier == "quick" else 101, 5):
+        if tried >= (12 if ctx.tier == "quick" else 150):
+            break
+        pts = toy_points(p, a, b)
+        order = len(pts) + 1
+        if order % 2 or not any(P[1] == 0 for P in pts):
+            continue
+        for n in _primes(3, order // 2):
+            if order % (2 * n):
+                continue
+            h = (1 + isqrt(4 * p) + p) // n
+            G = next((P for P in pts if P[1] and _ref_mul(n, P, p, a) is not None
+                      and _ref_mul(n, P, p, a)[1] == 0), None)
+            if G is None or h < 2:
+                continue
+            tried += 1
+            ctx.check("curve.malformed_refused", {"kind": "generator_of_order_2n", "args": [p, a, b, G[0], G[1], n, h]},
+                      key="curve.order_check.two_torsion")
+            ctx.count("malformed", "generator_of_order_2n")
+            break
     for p in (5, 7, 11, 13):  # anomalous toy curves (n = p) exist for small p: they must be refused
         for a in range(p):
             for b in range(p):
